@@ -95,6 +95,96 @@ PROPS = {
             J("rsec16", "C12_parallel_out", bound="shard length 2..6 bytes, goroutines 1..3"),
         ],
     ),
+    "C05": dict(
+        explanation="real Create on a symbolic file system, output judged by an independent PAR2 reader and Reed-Solomon oracle written from the specification",
+        assumptions=["MD5 is modelled as an injective function (collision- and forgery-free); CRC32 is the bitwise reflected CRC (validated against hash/crc32)",
+                     "file system below the package's fileIO interface is the symFS model; encoding/binary is modelled from go/types layouts",
+                     "fileIDLess is replaced by its specification in scenario harnesses; the replacement is justified by C05_fileIDLess"],
+        jobs=[
+            J("par2", "C05_fileIDLess", bound="all pairs of 16-byte ids"),
+            J("par2", "C05_create_one", bound="1 file of 1,3,4,5,9 symbolic bytes, slice size 4, 1..3 recovery blocks, goroutines 1..2"),
+            J("par2", "C05_create_two", bound="2 files (3,4),(4,5),(8,1) symbolic bytes, 1..2 blocks; both id orders"),
+            J("par2", "C05_create_three", bound="3 files 5,4,3 bytes, 1/4/5 blocks (3 volume files), goroutines 1..2; all 6 id orders"),
+            J("par2", "C05_sixteenk", bound="file lengths 16383, 16384, 16385"),
+            J("par2", "C05_volume_layout", bound="1..40 recovery blocks"),
+        ],
+    ),
+    "C15": dict(
+        explanation="real checkFilename, path.Clean, filepath.Join/Dir/Rel executed on names of symbolic bytes over a traversal alphabet",
+        assumptions=["Unix path semantics (GOOS=linux); symlinks are outside the claim", "alphabet { . / \\ a NUL 0x80 } stands for the byte classes the code distinguishes"],
+        jobs=[
+            J("par2", "C15_checkFilename", bound="declared names of 0..4 symbolic bytes", must_reach=["accepted", "rejected"]),
+            J("par2", "C15_checkFilename_long", tier="thorough", bound="declared names of 0..6 symbolic bytes"),
+            J("par2", "C15_getFilePath", bound="names of 0..3 bytes, relative index path"),
+            J("par2", "C15_newEncoder", bound="input paths '/'+0..4 symbolic bytes against base /a", must_reach=["accepted"]),
+        ],
+    ),
+    "C16": dict(
+        explanation="rolling CRC identity for listed window sizes (normal form) and the slice search of the real decoder on damaged files",
+        assumptions=["window sizes not listed are outside the claim", "scenario contents: fixed distinct / fixed duplicate-slice contents with symbolic damage bytes"],
+        jobs=[
+            J("par2", "C16_crc_window", bound="window sizes 4,8,12,16,20,32,64; all windows of n+1 symbolic bytes"),
+            J("par2", "C16_crc_window_big", tier="thorough", bound="window sizes 24,28,100,128,256,512,1000,2000"),
+            J("par2", "C16_search_arbitrary", bound="1 file of 4/5/8 bytes, slice 4; insertion of 1..4 bytes, truncation at every length, appended bytes, one overwritten slice"),
+        ],
+    ),
+    "C01": dict(
+        explanation="real Create, damage, real Repair (and Verify afterwards) on the symbolic file system",
+        assumptions=["MD5 injective model; symFS below fileIO; fileIDLess replaced by its verified specification",
+                     "quick tier: fixed file contents (pairwise distinct slices / identical low-entropy slices) with symbolic damage bytes (symBudget bytes per damage are solver variables, the rest a fixed filler); sizes as listed"],
+        jobs=[
+            J("par2", "C01_repair_one", bound="1 file of 4/5/8 bytes, slice 4, 2 recovery blocks, goroutines 1..2, damage: intact, missing, one slice overwritten, 1..4 bytes inserted at the front, truncated at every length, 1..2 bytes appended, arbitrary content of length 0..len+1; double-check on/off", must_reach=["repaired"]),
+            J("par2", "C01_repair_two", bound="2 files of 4 and 5 bytes, 2 blocks; per-file damage as above (first file: 4 kinds, second: 2) or the two files swapped", must_reach=["repaired"]),
+        ],
+    ),
+    "C02": dict(
+        explanation="write log of the symbolic file system during Repair / Verify / Create compared with the originals",
+        assumptions=["PAR2 only so far", "MD5 injective model; symFS below fileIO"],
+        jobs=[
+            J("par2", "C02_repair_arbitrary", bound="1 file of 4/5/8 bytes, 1 block, arbitrary current content of length 0..len+1, a bystander file present, double-check on/off"),
+            J("par2", "C02_garbage_parity", bound="recovery block replaced by arbitrary bytes with a recomputed packet hash; file intact / missing / one slice overwritten"),
+        ],
+    ),
+    "C03": dict(
+        explanation="real Verify on damaged sets against a reference notion of surviving slices",
+        assumptions=["MD5 injective model; symFS below fileIO", "quick tier: fixed contents, symbolic damage bytes"],
+        jobs=[
+            J("par2", "C03_verify_one", bound="1 file of 4/5/8 bytes, 1 block present or deleted, 6 structured damage kinds"),
+            J("par2", "C03_verify_two", bound="2 files of 4 and 5 bytes, 2 blocks, per-file damage or files swapped"),
+            J("par2", "C03_verify_arbitrary", bound="1 file of 4/5 bytes, arbitrary current content"),
+        ],
+    ),
+    "C14": dict(
+        explanation="one Repair step from an arbitrary state of the protected file and recovery file; induction over histories argued on paper (DESIGN.md section 5)",
+        assumptions=["PAR2 only so far", "the only state carried between operations is the directory content (decoders are rebuilt from disk on every call)"],
+        jobs=[
+            J("par2", "C14_step", bound="1 file of 4/5/8 bytes, 1 block present or deleted, 7 damage kinds incl. arbitrary content; Repair, then Verify and a second Repair", must_reach=["failed", "succeeded"]),
+        ],
+    ),
+    "C13": dict(
+        explanation="truncation at every offset, any single corrupted byte, deletion/emptying of any subset of files, interrupted Create prefixes; PAR2",
+        assumptions=["PAR2 only so far", "MD5 injective model"],
+        jobs=[
+            J("par2", "C13_truncate_index", bound="index file cut at every length 0..len; data present or missing"),
+            J("par2", "C13_truncate_volume", bound="volume file cut at every length"),
+            J("par2", "C13_truncate_data", bound="data file of 9 bytes cut at every length"),
+            J("par2", "C13_corrupt_byte", bound="any one byte of the index or volume file replaced by any other value"),
+            J("par2", "C13_delete_subset", bound="every file of a 2-file, 2-block set present / deleted / emptied (3^5 states)"),
+            J("par2", "C13_interrupted_create", bound="every prefix of Create's 3 file writes, last file cut at every packet boundary"),
+        ],
+    ),
+    "C19": dict(
+        explanation="well-checksummed but inconsistent PAR2 archives from a reference writer; boundary values for every numeric field",
+        assumptions=["PAR2 only so far", "boundary value lists as in the property's quantifier"],
+        jobs=[
+            J("par2", "C19_packet_length", bound="Length field of any one packet of index or volume: all 2^64 values"),
+            J("par2", "C19_main_fields", bound="slice size x recovery-set count over boundary lists"),
+            J("par2", "C19_desc_fields", bound="declared file length over a boundary list"),
+            J("par2", "C19_recovery_fields", bound="exponent over a boundary list x recovery data of 0, 4, 8 bytes"),
+            J("par2", "C19_missing_packets", bound="each mandatory packet type removed / main duplicated"),
+            J("par2", "C19_file_hash", bound="declared whole-file MD5 = 16 arbitrary bytes, valid recovery blocks 0 and 1, data file missing", must_reach=["written", "rejected"]),
+        ],
+    ),
 }
 
 
